@@ -170,14 +170,20 @@ def write_evidence_file(prop, tier, base_seed, total, reported, known_lines, det
         "seed": base_seed,
         "level": level_for(prop),
         "coverage": {
-            "evaluations": total["runs"],
+            "evaluations": (sum(v for k, v in total["probes"].items() if k.startswith("faulted-save:")) or total["runs"]) if level_for(prop) == "fault_enumeration" else total["runs"],
             "distinct_nontrivial": len(total["shapes"]),
-            "rule": ("one evaluation = one seeded simulated run (a generated history of operations, external edits, "
+            "rule": (("FAULT ENUMERATION: one evaluation = one save re-executed with exactly one serialisation step failing (every field "
+                      "encoding, key-file open, encryption and the formatter, found by a fault-free dry run on a cloned world) or one natural "
+                      "failure, for each sampled (state, format, destination holding a previous save); exhaustive over the fault points of "
+                      "each sampled pair, sampled over states. Non-trivial/distinct as below. " if level_for(prop) == "fault_enumeration" else "") +
+                     "one evaluation = one seeded simulated run (a generated history of operations, external edits, "
                      "faults and restarts executed against the real library on the simulated platform). A run is "
                      "non-trivial when at least one operation the property speaks about executed and its oracle was "
                      "evaluated; distinct = distinct (operation-kind sequence incl. outcome classes, set of fault kinds "
                      "that fired), counted as a set of 64-bit hashes over the whole batch"),
             "samples": samples or ["no sample kept"],
+            "simulated_runs": total["runs"],
+            "exhaustive": False,
             "runs_with_relevant_operation": total["relevant_runs"],
             "relevant_operations": total["relevant_ops"],
             "oracle_evaluations": total["checks"],
